@@ -55,6 +55,10 @@ func main() {
 	if id == "stress20" {
 		stressMain(os.Args[2:])
 	}
+	if id == "c03child" {
+		c03ChildMain(os.Args[2])
+		return
+	}
 	fs := flag.NewFlagSet("h", flag.ExitOnError)
 	seed := fs.Int64("seed", 1, "PRNG seed")
 	tier := fs.String("tier", "quick", "quick or thorough")
